@@ -63,18 +63,18 @@ func (fc *FnCtx) convertCode(st *State, v Val, to types.Type, call *ast.CallExpr
 		if v.K != nil && v.T == "" {
 			v = fc.coerce(v, tString)
 		}
-		n := app("str.len", v.T)
+		n := app("gs.len", v.T)
 		sl := Val{T: fc.define("slice", "Slice", fc.makeSliceUninit(st, s.Elem(), n, n)), Ty: to}
 		a := app("select", fc.heapGet(st, "E$uint8", fmt.Sprintf("(Array Int (Array %s (_ BitVec 8)))", fc.I())), app("s-arr", sl.T))
-		fc.assume(st, fmt.Sprintf("(forall ((i %s)) (! (=> (and %s %s) (= (select %s i) (str.at %s i))) :pattern ((select %s i))))", fc.I(), fc.leIdx(fc.idxLit(0), "i"), fc.ltIdx("i", n), a, v.T, a))
+		fc.assume(st, fmt.Sprintf("(forall ((i %s)) (! (=> (and %s %s) (= (select %s i) (gs.at %s i))) :pattern ((select %s i))))", fc.I(), fc.leIdx(fc.idxLit(0), "i"), fc.ltIdx("i", n), a, v.T, a))
 		return sl
 	}
 	if isString(to) {
 		if s, ok := v.Ty.Underlying().(*types.Slice); ok && basicOf(s.Elem()) != nil && basicOf(s.Elem()).Kind() == types.Uint8 {
 			r := fc.fresh("str", fc.strSort())
-			fc.assume(st, app("=", app("str.len", r), app("s-len", v.T)))
+			fc.assume(st, app("=", app("gs.len", r), app("s-len", v.T)))
 			a := app("select", fc.heapGet(st, "E$uint8", fmt.Sprintf("(Array Int (Array %s (_ BitVec 8)))", fc.I())), app("s-arr", v.T))
-			fc.assume(st, fmt.Sprintf("(forall ((i %s)) (! (=> (and %s %s) (= (str.at %s i) (select %s %s))) :pattern ((str.at %s i))))", fc.I(), fc.leIdx(fc.idxLit(0), "i"), fc.ltIdx("i", app("s-len", v.T)), r, a, fc.addIdx(app("s-off", v.T), "i"), r))
+			fc.assume(st, fmt.Sprintf("(forall ((i %s)) (! (=> (and %s %s) (= (gs.at %s i) (select %s %s))) :pattern ((gs.at %s i))))", fc.I(), fc.leIdx(fc.idxLit(0), "i"), fc.ltIdx("i", app("s-len", v.T)), r, a, fc.addIdx(app("s-off", v.T), "i"), r))
 			return Val{T: r, Ty: to}
 		}
 	}
@@ -102,7 +102,7 @@ func (fc *FnCtx) evalBuiltin(st *State, name string, call *ast.CallExpr) []Val {
 			if v.K != nil && v.T == "" {
 				v = fc.coerce(v, tString)
 			}
-			return []Val{{T: app("str.len", v.T), Ty: tInt}}
+			return []Val{{T: app("gs.len", v.T), Ty: tInt}}
 		case *types.Map:
 			ck := "MC$" + fc.typeName(t.Key()) + "$" + fc.typeName(t.Elem())
 			c := app("select", fc.heapGet(st, ck, "(Array Int Int)"), v.T)
@@ -246,8 +246,8 @@ func (fc *FnCtx) builtinCopy(st *State, call *ast.CallExpr) []Val {
 		if src.K != nil && src.T == "" {
 			src = fc.coerce(src, tString)
 		}
-		srcLen = app("str.len", src.T)
-		srcAt = func(i string) string { return app("str.at", src.T, i) }
+		srcLen = app("gs.len", src.T)
+		srcAt = func(i string) string { return app("gs.at", src.T, i) }
 	} else {
 		srcLen = app("s-len", src.T)
 		sa := app("select", E, app("s-arr", src.T))
@@ -279,8 +279,8 @@ func (fc *FnCtx) builtinAppend(st *State, call *ast.CallExpr) []Val {
 	if call.Ellipsis.IsValid() {
 		x := fc.eval1(st, call.Args[1])
 		if isString(x.Ty) {
-			addN = app("str.len", x.T)
-			addAt = func(E, i string) string { return app("str.at", x.T, i) }
+			addN = app("gs.len", x.T)
+			addAt = func(E, i string) string { return app("gs.at", x.T, i) }
 		} else {
 			addN = app("s-len", x.T)
 			addAt = func(E, i string) string {
